@@ -68,7 +68,32 @@ def variant_cond(g, cg, t, doc):
     if not leaves:
         return "rebuilt", y
     l = g.r.choice(leaves)
+    with_paths = [x for x in leaves if any(isinstance(a, PathT) for a in x.args)]
+    if with_paths and g.r.random() < 0.6:
+        l = g.r.choice(with_paths)
     kk = g.r.random()
+    pargs = [i for i, a in enumerate(l.args) if isinstance(a, PathT)]
+    if pargs and g.r.random() < 0.7:
+        # a data-path argument changed in a way that its text need not show: concreteness ('a' vs MapValue('a')), source data, a modifier
+        i = g.r.choice(pargs)
+        pa = copy.deepcopy(l.args[i])
+        prims = [j for j, p in enumerate(pa.parts) if isinstance(p, Prim) and isinstance(p.v, str)]
+        k2 = g.r.random()
+        if prims and k2 < 0.45:
+            j = g.r.choice(prims)
+            pa.parts[j] = MapT(key=lit(pa.parts[j].v))
+            what = "path-argument-concreteness-changed"
+        elif k2 < 0.75:
+            if pa.has_src:
+                pa.src = {"a": 2} if pa.src != {"a": 2} else {"a": 1}
+            else:
+                pa.has_src, pa.src = True, {"a": 1}
+            what = "path-argument-source-changed"
+        else:
+            pa.mods = [] if pa.mods else ["length"]
+            what = "path-argument-modifier-changed"
+        l.args[i] = pa
+        return what, y
     if len(l.args) >= 2 and g.r.random() < 0.3:
         # the multiset and the order of positional arguments matter: (a, b) vs (a, b, b) vs (b, a)
         va = any(m == l.method and v for (m, _pk, v, _kw) in cg.methods[l.cls])
@@ -131,7 +156,8 @@ def variant_path(g, pg, pt, doc):
 
 
 def beh_cond(c, docs):
-    return [E.run_outcome(lambda d=d: list(c.filter(copy_value(d)).result)) for d in docs]
+    return [E.run_outcome(lambda d=d: list(c.filter(copy_value(d)).result)) for d in docs] + \
+        [E.run_outcome(lambda d=d: list(c.filter(copy_value(d), source_data=copy_value(d)).result)) for d in docs]   # data-path arguments resolved
 
 
 def beh_path(p, docs):
@@ -203,6 +229,8 @@ def run(tier, seed, model_ok, spec_ok, replay=None):
         docs = [doc if isinstance(doc, list) else g.container(2, 4, "list"), doc if isinstance(doc, dict) else g.container(2, 4, "dict")]
         # conditions
         t = cg.tree(doc, depth=g.r.choice([0, 0, 1, 2]), null_p=0.05)
+        if g.r.random() < 0.25:
+            t = rg.with_path_arg(t, copy_value(doc))      # conditions that look at other nodes through data paths
         what, y = variant_cond(g, cg, t, doc)
         try:
             x_, y_ = t.build(), y.build()
@@ -233,7 +261,7 @@ def run(tier, seed, model_ok, spec_ok, replay=None):
             pass
         # rules / schemas
         if i % 3 == 0:
-            rt = rg.rule(doc, cast_p=0.4)
+            rt = rg.rule(doc, cast_p=0.4, path_args_p=0.3)
             ry = copy.deepcopy(rt)
             k = g.r.random()
             what = "rebuilt"
